@@ -21,7 +21,7 @@ META = {
             "mload copies with the overlap guard) preserve memory; each assembly peephole pass preserves halting behaviour on "
             "a labelled-program semantics; the unique_symbol bookkeeping (the optimiser never loses, duplicates or invents "
             "a marker a binop rewrite must keep); the compile_ir lowering pushes the value of pure expressions and keeps "
-            "its stack-height bookkeeping exact on every path through if / repeat / break / continue. Models are tied to the source by exact output equality (complete boundary grid, "
+            "its stack-height bookkeeping exact on every path through if / repeat / break / continue; the return-sequence rewrite is the calling convention it is assumed to be in the frames the front end builds; optimize never raises the symbol panics on front-end-shaped trees. Models are tied to the source by exact output equality (complete boundary grid, "
             "seeded random trees, generated and compiler-emitted assemblies) and by executing the same IR / assembly / "
             "contracts with and without the optimisers on an EVM.",
     "level_note": "Trusted: Coq kernel + vm_compute, py2coq translator, Word256.v (tied to pyrevm by C14's wordtie), hand models "
@@ -117,31 +117,53 @@ def binop_grid_tie(ctx, differ):
             for da, db, la, lb in doms:
                 exprs.append(f"map (fun p => show_res (opt_binop B_{op} (fst p) (snd p) {pcn})) (list_prod {da} {db})")
                 meta.append((op, pv, la, lb))
-    # the Coq evaluation (subprocesses) and the real optimiser (this process) run side by side
-    from concurrent.futures import ThreadPoolExecutor
-    tb = time.time()
-    with ThreadPoolExecutor(max_workers=1) as ex:
-        fut = ex.submit(coqrun.eval_cases, IMPORTS + defs, exprs, "c15binop", shard=(len(exprs) + 3) // 4,
-                        timeout=220 if ctx.tier != "thorough" else 900)
-        reals = [[real_binop(op, a, b, pv) for a in la for b in lb] for (op, pv, la, lb) in meta]
-        tr = time.time() - tb
-        outs = fut.result()
-    ctx.corr["binop_seconds_real_total"] = [round(tr, 1), round(time.time() - tb, 1)]
+    # Printing ~30 k result strings costs more than computing them: Coq returns one hash per (op, context) block of the
+    # grid, python hashes the real optimiser's strings the same way; only blocks whose hashes differ are printed in full.
+    P = 1 << 63       # primitive 63-bit integers: wrap-around arithmetic, fast under vm_compute
+    hdefs = ("From Coq Require Import Ascii Uint63.\n"
+             "Definition code (c : ascii) : int := match c with Ascii b0 b1 b2 b3 b4 b5 b6 b7 => "
+             "((if b0 then 1 else 0) + (if b1 then 2 else 0) + (if b2 then 4 else 0) + (if b3 then 8 else 0) "
+             "+ (if b4 then 16 else 0) + (if b5 then 32 else 0) + (if b6 then 64 else 0) + (if b7 then 128 else 0))%uint63 end.\n"
+             "Fixpoint hstr (s : string) (h : int) : int := match s with EmptyString => (h * 131 + 10)%uint63 "
+             "| String c t => hstr t (h * 131 + code c)%uint63 end.\n"
+             "Definition hlist (l : list string) : Z := Uint63.to_Z (fold_left (fun h s => hstr s h) l 7%uint63).\n")
+
+    def hlist(strs):
+        h = 7
+        for x in strs:
+            for ch in x:
+                h = (h * 131 + ord(ch)) % P
+            h = (h * 131 + 10) % P
+        return h
+
+    reals = [[real_binop(op, a, b, pv) for a in la for b in lb] for (op, pv, la, lb) in meta]
+    hexprs = [f"[Verif.Base.Hex.hexZ (hlist ({e}))]" for e in exprs]
+    houts = coqrun.eval_cases(IMPORTS + defs + hdefs, hexprs, "c15binop", shard=(len(exprs) + 3) // 4,
+                              timeout=220 if ctx.tier != "thorough" else 900)
+    diff = [i for i, (o, rl) in enumerate(zip(houts, reals)) if STRS.findall(o) != [format(hlist(rl), "x")]]
+    outs_full = {}
+    if diff:
+        full = coqrun.eval_cases(IMPORTS + defs, [exprs[i] for i in diff], "c15binopf", shard=max(1, (len(diff) + 3) // 4),
+                                 timeout=220 if ctx.tier != "thorough" else 900)
+        outs_full = dict(zip(diff, full))
     n, rewrites, mism = 0, 0, []
-    for (op, pv, la, lb), o, rl in zip(meta, outs, reals):
-        strs = STRS.findall(o)
+    for k, ((op, pv, la, lb), rl) in enumerate(zip(meta, reals)):
+        n += len(rl)
+        rewrites += sum(1 for r in rl if r != "N")
+        if k not in outs_full:
+            continue
+        strs = STRS.findall(outs_full[k])
         if len(strs) != len(la) * len(lb):
             raise RuntimeError(f"coq output size mismatch for {op}: {len(strs)}")
         i = 0
         for a in la:
             for b in lb:
                 r = rl[i]
-                n += 1
-                if r != "N":
-                    rewrites += 1
                 if r != strs[i] and len(mism) < 40:
                     mism.append((op, pv, a, b, r, strs[i]))
                 i += 1
+        if not any(m[0] == op and m[1] == pv for m in mism) and len(mism) < 40:
+            raise RuntimeError(f"hash mismatch without string mismatch for {op} {pv}")
     ctx.corr["binop_grid_cases"] = n
     ctx.corr["binop_grid_rewrites"] = rewrites
     ctx.samples.append({"_optimize_binop": ["sdiv", "x", hex(W - 1)], "model=real": "(sub 0 x)"})
